@@ -48,6 +48,7 @@ type checkSpec struct {
 // Budgets live here (driver side) so that tiers can be tuned without touching
 // the scenarios.
 var specs = map[string]*checkSpec{
+	"C14": {Property: "C14", Level: "exploration", Runs: map[string]int{"quick": 12000, "thorough": 400000}, Wall: map[string]int{"quick": 50, "thorough": 1500}},
 	"C12": {Property: "C12", Level: "fault_enumeration", Runs: map[string]int{"quick": 0, "thorough": 0}, Wall: map[string]int{"quick": 50, "thorough": 1500}, TotalFromWorker: true},
 	"C05": {Property: "C05", Level: "exploration", Overlay: true, Runs: map[string]int{"quick": 12000, "thorough": 300000}, Wall: map[string]int{"quick": 45, "thorough": 1500}, MustCount: "probe_site_"},
 	"C18": {Property: "C18", Level: "exploration", Runs: map[string]int{"quick": 20000, "thorough": 600000}, Wall: map[string]int{"quick": 50, "thorough": 1500}},
@@ -395,6 +396,13 @@ func cmdCheck(args []string) {
 			if spec.Race {
 				env = append(env, "GORACE=halt_on_error=1 exitcode=66")
 			}
+			var sigs []string
+			for _, k := range loadKnown() {
+				if k.Status == "known" && k.Property == id {
+					sigs = append(sigs, k.Signature)
+				}
+			}
+			env = append(env, "VERIF_KNOWN="+strings.Join(sigs, "\x1f"))
 			cmd.Env = env
 			cmd.Stdout = logf
 			cmd.Stderr = logf
